@@ -9,7 +9,7 @@ from __future__ import annotations
 import random, inspect
 from runner import Slice
 import gen_rv, toy_exec as T, cache_exec
-from common import make_sim, obs_state, first_diff, norm_model_state
+from common import make_sim, obs_state, first_diff, norm_model_state, global_state_digest, global_state_diff
 from rv_exec import pipe_extra, view
 from props import c13
 
@@ -68,6 +68,28 @@ def call_all(sim, names):
     return out
 
 
+def clean_process_verdict(reqs):
+    """an inspection call changed process-global state of the simulator package.  That alone is not a violation (it could
+    be a memo); it is one if it changes behaviour: the probes are evaluated in THIS process and in a fresh process."""
+    import json, os, subprocess, sys
+    import refproc
+    reqs = refproc.standard_probes() + list(reqs)
+    here = [refproc.probe(r) for r in reqs]
+    env = dict(os.environ)
+    there = []
+    for q in reqs:          # every probe in a process of its own: a probe must not see what an earlier probe left behind
+        r = subprocess.run([sys.executable, os.path.join(os.path.dirname(os.path.abspath(refproc.__file__)), "refproc.py")],
+                           input=json.dumps([q]), capture_output=True, text=True, timeout=300, env=env)
+        if r.returncode != 0:
+            return f"the clean-process reference could not be computed: {r.stderr[-300:]}"
+        there.append(json.loads(r.stdout)[0])
+    for k, (a, b) in enumerate(zip(here, there)):
+        if a != b:
+            d = first_diff(b, a, "probe%d" % k)
+            return f"inspection results in this process differ from a fresh process ({str(d)[:300]})"
+    return None
+
+
 class InspectRv(Slice):
     name = "inspect-rv"
 
@@ -91,13 +113,16 @@ class InspectRv(Slice):
         n = 0
         trace_a = [obs_state(a) + (pipe_extra(a) if five else [])]
         ended = None
+        changed = None
         for k in range(case["steps"]):
+            g0 = global_state_digest()
             for _ in range(rng.choice([0, 1, 3, 8])):
                 nm = rng.choice(names)
                 try:
                     getattr(a, nm)()
                 except Exception as e:
                     findings.append(("violation", f"inspection function {nm}() raised {type(e).__name__}: {e}"))
+            changed = changed or global_state_diff(g0, global_state_digest())
             sa, sb = snap(a), snap(b)
             if sa != sb:
                 findings.append(("violation", f"after {k} steps: state with inspection calls differs: {first_diff(sb, sa, 'snapshot')}"))
@@ -126,7 +151,9 @@ class InspectRv(Slice):
                 break
             trace_a.append(obs_state(a) + (pipe_extra(a) if five else []))
         if not findings:
+            g0 = global_state_digest()
             ia, ib = call_all(a, names), call_all(b, names)
+            changed = changed or global_state_diff(g0, global_state_digest())
             if ia != ib:
                 k = next(x for x in names if ia[x] != ib[x])
                 findings.append(("violation", f"final inspection result {k}() differs between the inspected and the uninspected run"))
@@ -147,6 +174,11 @@ class InspectRv(Slice):
                 if d:
                     findings.append(("disagreement", "inspected implementation run vs model run of the erased sequence: " + d))
                     break
+        if changed and not findings:
+            cl.add("global-state-touched")
+            v = clean_process_verdict([{"kind": "rv", "spec": spec, "five": five, "hz": case["hz"], "steps": case["steps"]}])
+            if v:
+                findings.append(("violation", f"an inspection call changed process-global state ({changed}) and {v}"))
         if n >= 3:
             cl.add("steps>=3")
         cl.add("five" if five else "single")
@@ -171,31 +203,141 @@ class InspectRv(Slice):
         return ["five", "single", "dcache", "icache", "steps>=3"]
 
 
+class InspectLoad(Slice):
+    """inspection at ANY moment of the life cycle: on the fresh simulation before a program is loaded, between two loads,
+    between steps (RISC-V and TOY through load_program)"""
+    name = "inspect-lifecycle"
+
+    def gen(self, rng, index, tier):
+        toy = rng.random() < 0.35
+        texts = [c13.gen_toy_text(rng) if toy else c13.gen_text(rng)[0] for _ in range(rng.choice([1, 1, 2]))]
+        return {"toy": toy, "texts": texts, "five": rng.random() < 0.5, "seed": rng.getrandbits(32), "steps": rng.choice([3, 10, 40]),
+                "dc": gen_rv.gen_cache_cfg(rng) if rng.random() < 0.3 else [], "ic": gen_rv.gen_cache_cfg(rng) if rng.random() < 0.3 else []}
+
+    def run(self, case, model):
+        rng = random.Random(case["seed"])
+        toy, five = case["toy"], case["five"] and not case["toy"]
+        if toy:
+            from architecture_simulator.simulation.toy_simulation import ToySimulation
+            a, b = ToySimulation(), ToySimulation()
+            snap = lambda s: T.obs_toy(s, False)
+        else:
+            a, b = c13.new_sim(case), c13.new_sim(case)
+            snap = lambda s: c13.full_snapshot(s, five)
+        names = getters_of(a, five)
+        findings, cl = [], {"toy" if toy else "rv"}
+
+        def inspect_batch(k):
+            for _ in range(k):
+                nm = rng.choice(names)
+                try:
+                    getattr(a, nm)()
+                except Exception as e:
+                    findings.append(("violation", f"inspection function {nm}() raised {type(e).__name__}: {e}"))
+        for t in case["texts"]:
+            k = rng.choice([0, 2, 5])
+            inspect_batch(k)
+            if k:
+                cl.add("inspected-before-load")
+            ra = rb = None
+            try:
+                a.load_program(t)
+            except Exception as e:
+                ra = type(e).__name__
+            try:
+                b.load_program(t)
+            except Exception as e:
+                rb = type(e).__name__
+            if ra != rb:
+                findings.append(("violation", f"load_program after inspection calls ends with {ra}, without them {rb}"))
+                return findings, cl
+        if ra is not None:
+            return findings, cl
+        n = 0
+        for k in range(case["steps"]):
+            inspect_batch(rng.choice([0, 1, 4]))
+            if snap(a) != snap(b):
+                findings.append(("violation", f"after {k} steps: state with inspection calls differs: {first_diff(snap(b), snap(a), 'snapshot')}"))
+                break
+            if a.is_done() != b.is_done():
+                findings.append(("violation", f"after {k} steps: is_done() is {a.is_done()} with inspection calls, {b.is_done()} without"))
+                break
+            if b.is_done():
+                break
+            ea = eb = None
+            try:
+                a.step()
+            except Exception as e:
+                ea = type(e).__name__
+            try:
+                b.step()
+            except Exception as e:
+                eb = type(e).__name__
+            if ea != eb:
+                findings.append(("violation", f"step {k}: with inspection calls {ea}, without {eb}"))
+                break
+            if ea:
+                break
+            n += 1
+        if n >= 2:
+            cl.add("steps>=2")
+        return findings[:3], cl
+
+    def nontrivial(self, classes):
+        return "steps>=2" in classes
+
+    def required_classes(self, tier):
+        return ["toy", "rv", "inspected-before-load", "steps>=2"]
+
+
 class InspectToy(Slice):
     name = "inspect-toy"
 
     def gen(self, rng, index, tier):
-        return {"spec": T.gen_toy_image(rng, maxlen=8), "ops": [rng.choice([0, 3, 3]) for _ in range(rng.randrange(2, 30))], "seed": rng.getrandbits(32)}
+        if rng.random() < 0.5:
+            # branchy image: taken and not-taken BRZ, cycle by cycle, so that inspections fall between the two cycles of both kinds
+            n = rng.randrange(3, 10)
+            prog = []
+            for i in range(n):
+                r = rng.random()
+                if r < 0.35:
+                    prog.append(T.enc(2, rng.randrange(i + 1, n + 1)))          # BRZ forward
+                elif r < 0.6:
+                    prog.append(T.enc(rng.choice([8, 9, 10, 11]), 0))            # ZRO / INC / DEC / NOT
+                else:
+                    prog.append(T.enc(rng.choice([1, 3, 4, 0]), 100 + rng.randrange(4)))
+            mem = [[i, w] for i, w in enumerate(prog)] + [[100 + k, rng.choice([0, 1, 0xFFFF])] for k in range(4)]
+            spec = [4096, mem, rng.choice([0, 0, 1, 0xFFFF]), 1, [prog[0]], [n - 1]]
+            return {"spec": spec, "ops": [rng.choice([3, 3, 3, 0, 1, 2]) for _ in range(rng.randrange(4, 30))], "seed": rng.getrandbits(32)}
+        return {"spec": T.gen_toy_image(rng, maxlen=8), "ops": [rng.choice([0, 3, 3, 3]) for _ in range(rng.randrange(2, 30))], "seed": rng.getrandbits(32)}
 
     def run(self, case, model):
         a, b = T.make_toy(case["spec"]), T.make_toy(case["spec"])
         names = getters_of(a, False)
         rng = random.Random(case["seed"])
         findings = []
+        changed = None
         for k, op in enumerate(case["ops"]):
+            g0 = global_state_digest()
             for _ in range(rng.choice([0, 2, 6])):
                 nm = rng.choice(names)
                 try:
                     getattr(a, nm)()
                 except Exception as e:
                     findings.append(("violation", f"TOY inspection function {nm}() raised {type(e).__name__}"))
+            changed = changed or global_state_diff(g0, global_state_digest())
             oa, ob = T.apply_impl(a, op), T.apply_impl(b, op)
             if oa != ob or T.obs_toy(a, False) != T.obs_toy(b, False):
                 findings.append(("violation", f"TOY: call {k} behaves differently after inspection calls"))
                 break
+        g0 = global_state_digest()
         if not findings and call_all(a, names) != call_all(b, names):
             findings.append(("violation", "TOY: final inspection results differ"))
-        it = [[[], T.obs_toy(T.make_toy(case["spec"]), False)]]
+        changed = changed or global_state_diff(g0, global_state_digest())
+        if changed and not findings:
+            v = clean_process_verdict([{"kind": "toy", "spec": case["spec"], "ops": case["ops"]}])
+            if v:
+                findings.append(("violation", f"TOY: an inspection call changed process-global state ({changed}) and {v}"))
         return findings[:3], {"ops>=3"} if len(case["ops"]) >= 3 else set()
 
     def nontrivial(self, classes):
@@ -206,7 +348,8 @@ class InspectToy(Slice):
 
 
 def slices():
-    return [InspectRv(), InspectToy()]
+    return [InspectRv(), InspectToy(), InspectLoad()]
 
 
-BUDGET = {"quick": {"inspect-rv": 500, "inspect-toy": 300}, "thorough": {"inspect-rv": 15000, "inspect-toy": 8000}}
+BUDGET = {"quick": {"inspect-rv": 500, "inspect-toy": 300, "inspect-lifecycle": 400},
+          "thorough": {"inspect-rv": 15000, "inspect-toy": 8000, "inspect-lifecycle": 10000}}
